@@ -7,7 +7,7 @@ from mbox import U
 import c17
 
 NAMES = [None, "end\\", "\\", 'q"', "a," + chr(0x422), "x\\y\\", "Kayo", "Doe, John", "é", "a  b", 'q"x', "back\\slash", " pad ", "", "9", "a\tb", "<x>", "a@b", "a\0b", "a\nb", "=?utf-8?b?QQ==?="]
-ADDRS = ["a@x.org", "b@y.org", "user.name+tag@sub.example.com", "é@example.com", "u@é.example", '"a b"@example.com', "x@[127.0.0.1]", "c@z.org", "-f@example.com", "a@X.ORG", "A@x.org"]
+ADDRS = ["a@x.org", "b@y.org", "user.name+tag@sub.example.com", "é@example.com", "u@é.example", '"a b"@example.com', "x@[127.0.0.1]", "c@z.org", "-f@example.com", "a@X.ORG", "A@x.org", "root@localhost", "cron@buildhost"]
 KINDS = ["from", "to", "cc", "bcc", "reply_to", "sender"]
 
 
@@ -33,6 +33,10 @@ def gen(ctx):
              [("from", None, "a@x.org"), ("bcc", None, "h@x.org")], [("from", None, "a@x.org"), ("bcc", None, "h@x.org"), ("keepbcc",)],
              [("from", None, "a@x.org"), ("envelope", None, ["e@x.org"])], [("from", None, "a@x.org"), ("to", None, "t@x.org"), ("envelope", "r@x.org", ["e1@x.org", "e2@x.org"]), ("bcc", None, "h@x.org")],
              [("sender", None, "s@x.org"), ("to", None, "t@x.org")],
+             # domains of one label
+             [("from", None, "root@localhost"), ("to", None, "cron@buildhost"), ("cc", None, "a@x.org")], [("from", None, "a@x.org"), ("sender", None, "cron@buildhost"), ("to", None, "t@x.org"), ("to", None, "root@localhost")],
+             # several authors and an explicit envelope: the author rule is about the header, not about the envelope
+             [("from", None, "a@x.org"), ("from", None, "b@y.org"), ("envelope", "r@x.org", ["e@x.org"])], [("envelope", None, ["e@x.org"]), ("from", None, "a@x.org"), ("from", "B", "b@y.org"), ("to", None, "t@x.org")],
              # a sender that names the author's mailbox: as given (same octets), with another letter case in the domain, in the local part
              [("from", None, "a@x.org"), ("sender", None, "a@x.org"), ("to", None, "t@x.org")], [("from", None, "a@x.org"), ("sender", None, "a@X.ORG"), ("to", None, "t@x.org")],
              [("sender", "S", "a@X.ORG"), ("from", "F", "a@x.org"), ("to", None, "t@x.org")], [("from", None, "a@x.org"), ("sender", None, "A@x.org"), ("to", None, "t@x.org")],
